@@ -5,6 +5,7 @@ import (
 	"encoding/hex"
 	"os"
 	"path/filepath"
+	"strings"
 	"testing"
 	"time"
 )
@@ -268,7 +269,7 @@ func TestC20(t *testing.T) {
 	}
 	// ---------- (3) existing targets are never clobbered ----------
 	for _, cmd := range []string{"make-iso", "decrypt-redump", "decrypt-3k3y"} {
-		for _, kind := range []string{"file", "dir", "symlink-to-file"} {
+		for _, kind := range []string{"file", "dir", "symlink-to-file", "file:trailing-slash", "file:via-missing-dir", "file:via-symlinked-dir", "file:dot-slash", "file:relative", "file:doubled-slash"} {
 			idx++
 			if !r.Mine(idx) {
 				continue
@@ -286,6 +287,27 @@ func TestC20(t *testing.T) {
 			tdir := filepath.Join(base, "target")
 			must(os.MkdirAll(tdir, 0o755))
 			target := filepath.Join(tdir, "out.iso")
+			spelled := target
+			if strings.HasPrefix(kind, "file:") {
+				// another spelling of the path of an existing file
+				writeFileAbs(target, patBytes(9, 0, 100000), baseTime)
+				must(os.MkdirAll(filepath.Join(tdir, "realdir", "inner"), 0o755))
+				must(os.Symlink(filepath.Join(tdir, "realdir", "inner"), filepath.Join(tdir, "lnk")))
+				switch kind {
+				case "file:trailing-slash":
+					spelled = target + "/"
+				case "file:via-missing-dir":
+					spelled = tdir + "/missing/../out.iso"
+				case "file:via-symlinked-dir":
+					spelled = tdir + "/lnk/../out.iso" // lexically tdir/out.iso, through the link tdir/realdir/out.iso
+				case "file:dot-slash":
+					spelled = tdir + "/./out.iso"
+				case "file:relative":
+					spelled = "target/out.iso"
+				case "file:doubled-slash":
+					spelled = tdir + "//out.iso"
+				}
+			}
 			switch kind {
 			case "file":
 				writeFileAbs(target, patBytes(9, 0, 100000), baseTime)
@@ -300,11 +322,11 @@ func TestC20(t *testing.T) {
 			var args []string
 			switch cmd {
 			case "make-iso":
-				args = []string{"make-iso", filepath.Join(base, "src", "T"), target}
+				args = []string{"make-iso", filepath.Join(base, "src", "T"), spelled}
 			case "decrypt-redump":
-				args = []string{"decrypt", "redump", filepath.Join(base, "src", "enc.iso"), filepath.Join(base, "src", "enc.dkey"), target}
+				args = []string{"decrypt", "redump", filepath.Join(base, "src", "enc.iso"), filepath.Join(base, "src", "enc.dkey"), spelled}
 			case "decrypt-3k3y":
-				args = []string{"decrypt", "3k3y", filepath.Join(base, "src", "enc.iso"), target}
+				args = []string{"decrypt", "3k3y", filepath.Join(base, "src", "enc.iso"), spelled}
 			}
 			key := sprintf("existing target %s for %s", kind, cmd)
 			r.State(key)
@@ -313,7 +335,16 @@ func TestC20(t *testing.T) {
 			code, _, _, err := runTool(args, env, base, "", tmo)
 			r.Transition(1)
 			after := snapshotTree(tdir, "")
-			rep := map[string]any{"case": key}
+			rep := map[string]any{"case": key, "spelled": spelled}
+			if strings.HasPrefix(kind, "file:") {
+				// only the no-clobber half is judged here: some spellings legitimately name another (new) file
+				if before["out.iso"] != after["out.iso"] {
+					viol("existing-target-changed:"+kind, sprintf("%s (output given as %q): the existing file was modified: %s -> %s", key, spelled, before["out.iso"], after["out.iso"]), rep)
+				} else {
+					r.Outcome("existing-target-kept")
+				}
+				continue
+			}
 			if d := diffSnap(before, after); d != "[]" {
 				viol("existing-target-changed:"+kind, sprintf("%s: the existing target was modified: %s", key, d), rep)
 			} else if err != nil || code == 0 {
